@@ -960,3 +960,80 @@ def names_are_case_sensitive(chk, rule, rels, audited=(), floor=1):
         if not hits:
             chk.ob(rule, '%s/no-case-mapping' % rel, True, rel, '')
     chk.floor(rule, floor, 'modules scanned')
+
+
+def handlers_do_something(chk, rule, rels, audited=(), floor=5):
+    """An `except` clause whose body does nothing (pass, a docstring, a debug line) makes the failure it caught
+    disappear: the caller sees a normal return and a result with something silently missing.  Every handler converts
+    (raise), answers (return / continue / break with a value set) or records (an assignment / call that is not
+    logging)."""
+    import ast as _ast
+    from vt.model import walk_no_nested, norm
+    from vt.runner import where
+    chk.doc(rule, 'every except clause in the listed modules has an effect: it raises, returns, continues / breaks, '
+                  'assigns or calls something other than the debug logger; a handler that only passes is allowed at the '
+                  'audited sites (%s)' % (', '.join(audited) or 'none'))
+    n = 0
+    for rel in rels:
+        mod = chk.model.mod(rel, required=False)
+        if mod is None:
+            continue
+        for fn in [f for f in _ast.walk(mod.tree) if isinstance(f, _ast.FunctionDef)]:
+            for h in [x for x in walk_no_nested(fn) if isinstance(x, _ast.ExceptHandler)]:
+                n += 1
+                effect = False
+                for st in h.body:
+                    if isinstance(st, _ast.Pass):
+                        continue
+                    if isinstance(st, _ast.Expr) and (isinstance(st.value, _ast.Constant) or 'debug.logger' in norm(st)):
+                        continue
+                    effect = True
+                key = '%s:%s/except %s' % (rel.split('/')[-1], fn.name, norm(h.type)[:40] if h.type else '')
+                ok = effect or any(a in key for a in audited)
+                chk.ob(rule, key, ok, where(mod, h),
+                       'this handler swallows the exception without converting, answering or recording anything')
+    chk.floor(rule, floor, 'except clauses')
+
+
+def no_partial_key_memo(chk, rule, rel, cname, floor=1):
+    """A handler that answers from a table on the instance (`if k in self._cache: return self._cache[k]`) returns what
+    an earlier call computed for the same key.  That is only right when the key holds everything the answer depends
+    on; the handlers of the code generators get one `data` argument, so the key must be built from *all* of it (the
+    whole argument, or a tuple naming every component the function reads) - otherwise two clauses that agree on the
+    key and differ elsewhere (the IMPLIED flag of an INDEX, the module of a type) share one answer."""
+    import ast as _ast
+    from vt.model import walk_no_nested, norm
+    from vt.runner import where
+    ci = chk.model.cls(rel, cname)
+    chk.doc(rule, '%s: a method that returns self.<table>[<key>] for a table it also fills (memoisation) derives <key> from '
+                  'its whole argument, not from a projection of it' % cname)
+    n = 0
+    for name, fn in sorted(ci.methods.items()):
+        filled = set()
+        for st in walk_no_nested(fn):
+            if isinstance(st, _ast.Assign):
+                for t in st.targets:
+                    if isinstance(t, _ast.Subscript) and is_self_attr(t.value):
+                        filled.add(t.value.attr)
+        for r in [x for x in walk_no_nested(fn) if isinstance(x, _ast.Return) and isinstance(x.value, _ast.Subscript)
+                  and is_self_attr(x.value.value) and x.value.value.attr in filled]:
+            n += 1
+            key = r.value.slice
+            params = [a.arg for a in fn.args.args[1:]]
+            keyvars = [v.id for v in _ast.walk(key) if isinstance(v, _ast.Name)]
+            whole = (isinstance(key, _ast.Name) and key.id in params and len(params) == 1) or (
+                isinstance(key, _ast.Tuple) and set(params) <= set(keyvars))
+            # a local key: how was it built?
+            proj = None
+            for kv in keyvars:
+                for st in walk_no_nested(fn):
+                    if isinstance(st, _ast.Assign) and any(isinstance(t, _ast.Name) and t.id == kv for t in st.targets):
+                        if any(isinstance(x, (_ast.Subscript, _ast.ListComp, _ast.GeneratorExp)) for x in _ast.walk(st.value)):
+                            proj = st
+            chk.ob(rule, '%s.%s/memo self.%s[%s]' % (cname, name, r.value.value.attr, norm(key)[:30]), whole and proj is None,
+                   where(ci.mod, r), 'the cached answer is looked up under `%s`%s: clauses that differ only in what the key '
+                   'leaves out get the answer computed for the first of them' % (
+                       norm(key)[:40], (', built as `%s`' % norm(proj)[:60]) if proj is not None else ''))
+    if n == 0:
+        chk.ob(rule, '%s/no-memoising-handlers' % cname, True, rel, '')
+    chk.floor(rule, floor, 'scan')
